@@ -259,6 +259,15 @@ def directed_histories():
             out.append([('CustPrim', p, kw), ('ArrayOf', N), ('ArrayOf', N), ('Publish', order[0]), ('Publish', order[1])])
         out.append([('CustPrim', p, kw), ('ArrayOf', N), ('Publish', N + 1), ('ArrayOf', N), ('Publish', N + 2), ('Publish', N)])
         out.append([('CustPrim', p, kw), ('ArrayOf', N), ('Mandatory', N + 1), ('Publish', N + 2), ('ArrayOf', N), ('Publish', N + 3), ('Publish', N + 1)])
+    # a variant that remembers child attributes for ALL fields and for one FUTURE field, then the class grows, then further variants
+    for c in (3, 4, 5, 6):
+        for t in (1, 2):
+            out.append([('ChildAttrsAll', c, 'min1'), ('ChildAttrs', N, 'y', 'nil0'), ('AppendField', c, 'y', t), ('ChildAttrsAll', N + 1, 'nil0'),
+                        ('Customize', N + 1, 'min1'), ('ChildAttrsAll', c, 'nil0')])
+            out.append([('ChildAttrs', c, 'y', 'nil0'), ('ChildAttrsAll', N, 'min1'), ('InsertField', c, 'y', t), ('Customize', N + 1, 'nil0'),
+                        ('ChildAttrsAll', N + 1, 'min1'), ('ChildAttrsAll', c, 'min1')])
+            out.append([('ChildAttrsAll', c, 'nil0'), ('ChildAttrs', N, 'y', 'min1'), ('Customize', N + 1, 'min1'), ('AppendField', c, 'y', t),
+                        ('ChildAttrsAll', N + 2, 'min1'), ('ChildAttrsAll', 3 if c != 3 else 4, 'min1')])
     for c in (3, 4, 5, 6):
         out.append([('ArrayOf', c), ('ArrayOf', c), ('Publish', N), ('Publish', N + 1)])
         out.append([('Customize', c, 'min1'), ('ArrayOf', N), ('ArrayOf', N), ('Publish', N + 2), ('Publish', N + 1), ('Publish', c)])
@@ -414,7 +423,7 @@ def run(ctx):
                 ctx.violation('projection|%s|model=%s|%s' % (op_key(ops), m['model'], m['why'].split(':')[0]),
                               'after %s model %s differs from SpyneModel: %s' % (ops, m['model'], m['why']), m)
     # ---- code -> spec: random deeper histories validated by TLC
-    depth, per = (6, 150) if ctx.quick else (7, 1500)
+    depth, per = (6, 250) if ctx.quick else (7, 1500)
     outs = run_workers(ctx, 'random_worker', [[ctx.seed * 1000 + i, per, depth] for i in range(nproc)])
     traces = [t for out in outs for t in out]
     dh = directed_histories()
